@@ -176,6 +176,12 @@ class ConstVal:
             return v["fn"]
         return None
 
+    def fn_args(self):
+        v = self.val
+        if v and v.get("kind") == "zst" and "args" in v:
+            return v["args"]
+        return None
+
     def str_table(self):
         """decode `&[&str]` / `&[&str; N]` / `[&str; N]` constants"""
         v = self.val
@@ -818,6 +824,17 @@ def callee_name(t, resolved=True):
     return short_callee(p)
 
 
+def call_name(t):
+    """canonical callee name used in origin trees: trait calls as `<Self as Trait>::method` built
+    from the *unresolved* callee (stable against which impl std picks), everything else as the
+    short resolved path"""
+    if "trait" in t and "assoc" in t:
+        tr = split_path(strip_mods(t["trait"]))[-1]
+        st = strip_mods(t.get("self_ty", "_"))
+        return "<%s as %s>::%s" % (st, tr, t["assoc"])
+    return callee_name(t)
+
+
 def callee_base(t, resolved=True):
     n = callee_name(t, resolved)
     return None if n is None else strip_generics(n)
@@ -848,6 +865,10 @@ class Node:
 
     def call_names(self):
         return [n.a for n in self.walk() if n.kind == "call"]
+
+    def has_call(self, *methods):
+        """any call node whose method_name is one of `methods`"""
+        return any(n.kind == "call" and method_name(n.a) in methods for n in self.walk())
 
     def leaves(self):
         return [n for n in self.walk() if not n.kids]
@@ -892,9 +913,11 @@ class Origins:
     arguments are leaves; locals with several definitions become phi nodes over their
     definitions (each expanded once; cycles cut with a `local` leaf)."""
 
-    def __init__(self, body, max_depth=14):
+    def __init__(self, body, max_depth=80):
         self.b = body
         self.max_depth = max_depth
+        self._cache = {}
+        self._busy = set()
 
     def operand(self, o, depth=0, stack=()):
         if "const" in o:
@@ -916,6 +939,8 @@ class Origins:
                 # field of an aggregate we know: select the operand
                 if node.kind == "agg" and node.a and node.a[1] is not None and p["n"] in node.a[1]:
                     node = node.kids[node.a[1].index(p["n"])]
+                elif node.kind == "agg" and node.a and node.a[0] == "tuple" and p["n"].isdigit() and int(p["n"]) < len(node.kids):
+                    node = node.kids[int(p["n"])]
                 else:
                     node = Node("field", p["n"], [node])
             elif "dc" in p:
@@ -934,7 +959,9 @@ class Origins:
             # arguments may be reassigned, but that is rare; treat as leaf unless written
             if not b.defs.get(l):
                 return Node("arg", l)
-        if depth > self.max_depth or l in stack:
+        if l in self._cache:
+            return self._cache[l]
+        if depth > self.max_depth or l in self._busy:
             return Node("local", b.lname(l))
         ds = b.defs.get(l, [])
         whole = [d for d in ds if d[2] != "partial"]
@@ -942,10 +969,16 @@ class Origins:
             if l == 0:
                 return Node("local", "_0")
             return Node("local", b.lname(l))
-        if len(whole) == 1 and len(ds) == 1:
-            return self._def(whole[0], depth + 1, stack + (l,))
-        kids = [self._def(d, depth + 1, stack + (l,)) for d in whole]
-        n = Node("phi", b.lname(l), kids)
+        self._busy.add(l)
+        try:
+            if len(whole) == 1 and len(ds) == 1:
+                n = self._def(whole[0], depth + 1, stack)
+            else:
+                kids = [self._def(d, depth + 1, stack) for d in whole]
+                n = Node("phi", b.lname(l), kids)
+        finally:
+            self._busy.discard(l)
+        self._cache[l] = n
         return n
 
     def _def(self, d, depth, stack):
@@ -953,7 +986,7 @@ class Origins:
         at = (bb, idx)
         if kind == "call":
             t = payload
-            name = callee_name(t) or "?dyn"
+            name = call_name(t) or "?dyn"
             kids = [self.operand(a, depth, stack) for a in t["args"]]
             if "callee" not in t:
                 kids = [self.operand(t["callee_dyn"], depth, stack)] + kids
